@@ -779,6 +779,51 @@ func ruleGenesisPrecision(c *Ctx, m *Model, r *E1, genPkg string) {
 	}
 }
 
+// callerArgs: the arguments passed for a parameter by the static callers of its function within the
+// function's own package.
+func callerArgs(prm *ssa.Parameter) []ssa.Value {
+	fn := prm.Parent()
+	if fn == nil || fn.Pkg == nil {
+		return nil
+	}
+	idx := -1
+	for i, q := range fn.Params {
+		if q == prm {
+			idx = i
+		}
+	}
+	if idx < 0 {
+		return nil
+	}
+	var out []ssa.Value
+	var visit func(f *ssa.Function)
+	visit = func(f *ssa.Function) {
+		for _, ci := range callsIn(f) {
+			if ci.Common().StaticCallee() == fn && idx < len(ci.Common().Args) {
+				out = append(out, ci.Common().Args[idx])
+			}
+		}
+		for _, af := range f.AnonFuncs {
+			visit(af)
+		}
+	}
+	for _, mem := range fn.Pkg.Members {
+		switch x := mem.(type) {
+		case *ssa.Function:
+			visit(x)
+		case *ssa.Type:
+			for _, t := range []types.Type{x.Type(), types.NewPointer(x.Type())} {
+				ms := fn.Prog.MethodSets.MethodSet(t)
+				for i := 0; i < ms.Len(); i++ {
+					if mf := fn.Prog.MethodValue(ms.At(i)); mf != nil && mf.Pkg == fn.Pkg && len(mf.Blocks) > 0 {
+						visit(mf)
+					}
+				}
+			}
+		}
+	}
+	return out
+}
 
 // rowColumnSources: the "Type.Field" row columns a string value is loaded from — directly, through a φ, or
 // through a local literal table of (amount, destination) cases that a loop walks over.
@@ -802,9 +847,38 @@ func rowColumnSources(v ssa.Value, depth int) []string {
 			out = append(out, rowColumnSources(e, depth+1)...)
 		}
 		return out
+	case *ssa.Parameter:
+		// a helper's parameter: what every caller in the package passes
+		var out []string
+		for _, arg := range callerArgs(y) {
+			out = append(out, rowColumnSources(arg, depth+1)...)
+		}
+		return out
+	case *ssa.Slice:
+		// the elements stored into the backing array (a variadic argument list, a slice literal)
+		if al, ok := y.X.(*ssa.Alloc); ok {
+			var out []string
+			for _, r := range *al.Referrers() {
+				if ia, ok := r.(*ssa.IndexAddr); ok {
+					for _, r2 := range *ia.Referrers() {
+						if st, ok := r2.(*ssa.Store); ok && st.Addr == ia {
+							out = append(out, rowColumnSources(st.Val, depth+1)...)
+						}
+					}
+				}
+			}
+			return out
+		}
+		return rowColumnSources(y.X, depth+1)
 	case *ssa.UnOp:
 		if y.Op != token.MUL {
 			return nil
+		}
+		// an element of a slice of strings (`for _, a := range amounts`)
+		if ia, ok := y.X.(*ssa.IndexAddr); ok {
+			if _, isSl := ia.X.Type().Underlying().(*types.Slice); isSl {
+				return rowColumnSources(ia.X, depth+1)
+			}
 		}
 		fa, ok := y.X.(*ssa.FieldAddr)
 		if !ok {
